@@ -656,6 +656,7 @@ def run(ctx, tier):
     # "accepts further commits": every transaction takes its header through the selection function (new format first, then legacy), not from a format decided once at open
     import c09
     results += c09.snapshot_source(ctx, rule='C15.snapshot-source')
+    results += c12.header_extent(ctx, rule='C15.header-extent')
     return dict(
         results=results, stats=dict(ctx.stats),
         explanation=(
